@@ -239,9 +239,9 @@ fn wellformed_case(seed: u64, i: u64) -> String {
     // two DT_SONAME entries are not something a well-formed file has: no reference answer then
     let rs = if spec.soname_twice || spec.soname_at_strsz.is_some() { "-".to_string() } else { built.soname.as_ref().map(|v| hex(v)).unwrap_or("none".into()) };
     format!(
-        "C14 w{}-{} kind=slice data={} buildid={} soname={} ref_buildid={} ref_soname={} spec=bias{:x}.last{}.link{}.dp{}.ds{}.np{}.ns{}.tw{} wf={}{}{}{}{}",
+        "C14 w{}-{} kind=slice data={} buildid={} soname={} ref_buildid={} ref_soname={} spec=bias{:x}.lo{:x}.last{}.link{}.dp{}.ds{}.np{}.ns{}.tw{} wf={}{}{}{}{}",
         seed, i, hex(&built.bytes), b, s, rb, rs,
-        spec.bias, spec.last_name, spec.dyn_link as u8, spec.dyn_phdr as u8, spec.dyn_section as u8, spec.note_phdr as u8, spec.note_section as u8, spec.soname_twice as u8,
+        spec.bias, spec.load_off, spec.last_name, spec.dyn_link as u8, spec.dyn_phdr as u8, spec.dyn_section as u8, spec.note_phdr as u8, spec.note_section as u8, spec.soname_twice as u8,
         if spec.is64 { "64" } else { "32" }, if spec.be { "be" } else { "le" },
         if spec.has_phdrs { "+ph" } else { "" }, if spec.has_sections { "+sh" } else { "" }, if spec.bias != 0 { "+bias" } else { "" }
     )
